@@ -39,6 +39,7 @@ def check(F, rep, tier):
                 rep.bad("R08.3", "group-missing:" + g, "from_str reads capture group %r which the regex does not define" % g, f.where())
         # R08.6 separators: Display's literals equal the literals preceding the regex groups
         parsers.semver_separators(F, rep, groups)
+        split_separators(F, rep, f)
     # ---- R08.5 classification uses ASCII digits -----------------------------------
     parsers.numeric_classification(F, rep, "R08.5", MODULE, ("PreReleaseIdentifier", "BuildMetadata"), floor=2)
     # ---- R08.7 check parity ---------------------------------------------------------
@@ -56,3 +57,23 @@ EXPL = ("Static decision of the structural clauses of C08. R08.1 decides L(parse
 ASSUME = ["regex::Regex::new(p).captures(s) with ^...$ matches exactly the strings in L(p) (leftmost-first semantics do not change the accepted set)",
           "uN::from_str succeeds iff its input is a non-empty run of ASCII digits (optional +) within range; numeric range is the documented exemption"]
 TRUST = ["rustc nightly MIR + trait resolution", "zfacts exporter", "regex-syntax parser and regex-automata determinisation (same crates the subject uses)", "rules/c08.py, rules/parsers.py, rules/spec.py"]
+
+
+def split_separators(F, rep, f):
+    """R08.6: what Display joins with '.', the parser must split at '.' and nothing else: every str::split in the parser scope
+    (from_str with helpers spliced in, and the closures built there) uses the single-character pattern '.'"""
+    rule = "R08.6"
+    scope = parsers.parser_scope(F, f, MODULE)
+    n = 0; bad = []
+    for g in scope:
+        for bi, t in g.calls():
+            c = mir.callee(t) or ""
+            if not any(c.endswith(x) or (x + "::<") in (t[1].get("full") or "") for x in ("core::str::<impl str>::split", "core::str::<impl str>::splitn", "core::str::<impl str>::rsplit", "core::str::<impl str>::split_terminator", "core::str::<impl str>::split_inclusive")): continue
+            n += 1
+            pat = mir.const_arg(g, t[2][1]) if len(t[2]) > 1 else None
+            site = "%s bb%d line %s" % (g.where(), bi, g.blocks[bi]["line"])
+            if pat == ".": rep.ok(rule, "identifier lists are split at '.'", sample=site, nontrivial_key="split%s%d" % (g.path, bi))
+            else:
+                what = repr(pat) if isinstance(pat, str) else (t[1].get("targs") or ["?"])[-1]
+                rep.bad(rule, "split-separator:" + (g.blocks[bi].get("from") or g.path).rsplit("::", 1)[-1], "the parser splits an identifier list with the pattern %s instead of '.': identifiers containing other characters of that pattern (e.g. '-') are torn apart and printed differently" % what, site)
+    if n == 0: rep.undecided(rule, "split-shape", "no str::split found in the SemVer parser: how identifier lists are separated is not evaluated", f.where())
